@@ -131,9 +131,42 @@ func canonCall(c *ast.CallExpr) string {
 	return name + "(" + strings.Join(args, ",") + ")"
 }
 
+// hookSite: the site name of a `verifhook.At("…")` statement ("" for anything else)
+func hookSite(s ast.Stmt) string {
+	es, ok := s.(*ast.ExprStmt)
+	if !ok {
+		return ""
+	}
+	c, ok := es.X.(*ast.CallExpr)
+	if !ok || len(c.Args) != 1 {
+		return ""
+	}
+	sel, ok := c.Fun.(*ast.SelectorExpr)
+	if !ok || sel.Sel.Name != "At" {
+		return ""
+	}
+	if id, ok := sel.X.(*ast.Ident); !ok || id.Name != "verifhook" {
+		return ""
+	}
+	if l, ok := c.Args[0].(*ast.BasicLit); ok {
+		return strings.Trim(l.Value, "\"")
+	}
+	return "?"
+}
+
+// withHooks: print the yield points as `@site` (op `hooked`); otherwise they are dropped — they are
+// inert instrumentation, the program text the models were transcribed from does not contain them
+var withHooks bool
+
 func canonBlock(b *ast.BlockStmt) string {
 	var parts []string
 	for _, s := range b.List {
+		if site := hookSite(s); site != "" {
+			if withHooks {
+				parts = append(parts, "@"+site)
+			}
+			continue
+		}
 		parts = append(parts, canonStmt(s))
 	}
 	return strings.Join(parts, "; ")
@@ -232,6 +265,13 @@ func (factsRunner) Step(t []string) string {
 	if t[0] == "facts" && len(t) == 3 {
 		return canonFunc(t[1], t[2])
 	}
+	if t[0] == "hooked" && len(t) == 3 {
+		// the same text with the yield points of the controlled scheduler printed as `@site`: every atomic
+		// operation of the lock-free queue is preceded by exactly one yield point (suite lfq-sched)
+		withHooks = true
+		defer func() { withHooks = false }()
+		return canonFunc(t[1], t[2])
+	}
 	return "bad-op"
 }
 
@@ -242,6 +282,7 @@ func factsGen(rng *proto.RNG, tier string, shard, nshards int, w *bufio.Writer) 
 	fmt.Fprintln(w, "# case 0")
 	for _, l := range []string{"facts lock_free.go Push", "facts lock_free.go Pop", "facts mpsc.go Push", "facts mpsc.go Pop", "facts mpsc.go Empty",
 		"facts ring_unbounded.go Write", "facts ring_unbounded.go Close", "facts ring_unbounded.go process",
+		"hooked lock_free.go Push", "hooked lock_free.go Pop",
 		"facts mpsc.go Peek", "facts nofile.go Push", "facts ../queues/mpsc.go Push", "facts", "facts mpsc.go"} {
 		fmt.Fprintln(w, l)
 	}
